@@ -81,6 +81,9 @@ CLAIMS['C06'] = ('Bounded symbolic model checking of the real surface code (Stan
     'paraboloid mirror with collimated light (any height, also a conic assigned after construction), ellipsoid mirror between its foci in both directions (R, eccentricity symbolic), hyperboloid mirror with a beam converging to the far focus (k=-4), exit face of a plano-hyperbolic singlet k=-n^2 (R, n symbolic), sphere through its centre of curvature: the ray is not lost, hits the surface point aimed at, meets the image point, and its optical path referred to the incoming wavefront equals the axial one. '
     'Perfect-square discriminants are resolved by exact polynomial arithmetic, the remaining radicals are solver atoms.',
     'one surface + image plane per configuration (the property names single-surface closed forms; multi-surface stigmatic systems follow by composing steps); azimuth atan2(4,3); degenerate rays lying in the image plane excluded; the aplanatic-point clause is only attempted in the thorough tier (genuinely algebraic radicals: reported inconclusive if the solver does not finish); zero wavefront error / Strehl 1 follow from these two facts through C09 (distance from the sphere centre is the radius) and C11 (unaberrated pupil) and are not re-derived here; very deep hyperboloids: known finding F24')
+CLAIMS['C07'] = ('Bounded symbolic model checking of metamorphic relations: the same real code is executed on a lens / ray and on its transformed description (both symbolic in the same variables) and the relation between the two results is decided: '
+    'Optic.scale_system(s) = the lens built with every length times s (conic + plane singlet with aperture, infinite and finite object, all numbers and s symbolic; focal length scales); one surface step under scaling (positions and path x s, directions unchanged), under the two meridional mirrors (and the launch through trace_generic / get_vig_factor / generate_rays with symbolic vignetting under both mirrors and their product), with a dummy plane between equal media inserted, and a dispersion-free plate at two symbolic wavelengths.',
+    'curved-surface steps in the quick tier: sphere (refracting 1 -> 1.5 and reflecting) with symbolic radius, hit point and start distance and ONE skew rational unit direction (2,-3,6)/7 (symbolic direction, indices and conic in the thorough tier); whole lenses follow from the step relations by induction (paper argument); the clause on tilting a spherical surface about its centre of curvature is NOT decided (rotations with symbolic angles inside the intersection radicals were beyond the solver); Seidel sums under scaling not re-derived (C08 decides their formulas, which are homogeneous of degree 1)')
 NOT_YET = 'check not built yet in this round (work in progress; see DESIGN.md section 6 for the plan)'
 
 props = [json.loads(l) for l in open(os.path.join(ROOT, 'properties.jsonl'))]
